@@ -139,15 +139,15 @@ def execute(plan, env):
     res = Result()
     res.evaluations = 0
     tr = Trace(keep=env.keep_trace)
-    if "sequence" not in plan and "directed" not in plan and plan.get("seed_index") == 0:
+    if plan.get("explore") and "directed" not in plan and plan.get("seed_index") == 0:
         for d in DIRECTED:
             sub = execute({"tree": d["tree"], "tier": plan.get("tier"), "order_seed": 1, "sequences": 1,
                            "directed": d["name"]}, env)
             res.evaluations += sub.evaluations
             res.known.extend(sub.known)
             if sub.violation:
-                sub.violation["directed_tree"] = d["tree"]
-                sub.violation["directed"] = d["name"]
+                sub.violation["replan"] = {"tree": d["tree"], "tier": plan.get("tier"), "order_seed": 1, "sequences": 1,
+                                           "directed": d["name"], "sequence": sub.violation["sequence"]}
                 res.violation = sub.violation
                 res.digest = tr.digest()
                 return res
@@ -292,8 +292,6 @@ def shrink(plan, still_fails, budget):
     res = core.probe(plan)
     if res.violation is None:
         return plan
-    if res.violation.get("directed"):
-        plan = dict(plan, tree=res.violation["directed_tree"], directed=res.violation["directed"])
     best = dict(plan, sequence=res.violation["sequence"])
     if not still_fails(best):
         return plan
